@@ -23,6 +23,12 @@ def run(R):
             out = R.path("stream", "s%d-%d.ndjson" % (s, i))
             R.run([exe, str(s + 10 * i), "2304" if (thorough or i < 3) else "1100", out], env=env, ok_codes=(0, 70), timeout=1800)
             files += R.split_file(out, 3, "st-%d-%d" % (s, i))
+    if thorough:          # 4 GiB + 256 bytes of keystream per cipher (needs about 4 GiB of memory for a few seconds per cipher)
+        for j, (variant, env) in enumerate([CFGS[0], CFGS[-1]]):
+            exe = R.cc("stream_driver", ["stream_driver.c"], variant, extra=["-Wno-deprecated-declarations"])
+            out = R.path("stream", "huge-%d.ndjson" % j)
+            R.run([exe, str(R.seed + j), "huge", out], env=env, ok_codes=(0, 70), timeout=3000)
+            files += R.split_file(out, 4, "huge-%d" % j)
     ngroups = nlen = 0
     distinct = set()
     for f in files:
